@@ -9,8 +9,8 @@ EVIDENCE = dict(
     rule="(1) every behaviour of ParseIsolation.tla for 2 processes x 1 call x streams <= 2 tokens (exhaustive) and "
          "-simulate behaviours for 3 processes x 2 calls x streams <= 4 tokens is replayed on real contentstream.Parser "
          "goroutines gated by the verif hook; non-trivial = schedule with >= 1 context switch or >= 2 calls in a process. "
-         "(2) histories of extractions of generated documents (alone / after others / after failing inputs / concurrent "
-         "under the race detector) validated by DeterminismTrace.tla; distinct by schedule / history seed.",
+         "(2) histories of extractions of generated documents of every format (each alone in a fresh process / after others / after failing inputs / "
+         "concurrent under the race detector) validated by DeterminismTrace.tla; distinct by schedule / history seed.",
     assumptions=["real-goroutine schedules outside the gated parser are sampled, not enumerated",
                  "the Go race detector is an observation device"],
 )
@@ -44,7 +44,7 @@ def run(ctx):
     ctx.extra["control_flow_mismatch_cases"] = sum(1 for r in res if r.get("what", "").startswith("control-flow"))
     # R3: histories under the race detector
     racelog = os.path.join(ctx.scratch, "race")
-    reqs = [{"rounds": 2 if q else 6, "goroutines": 4 if q else 8} for _ in range(2 if q else 8)]
+    reqs = [{"rounds": 3 if q else 6, "goroutines": 4 if q else 8} for _ in range(1 if q else 4)]
     hres = ctx.run_driver(["c03", "history"], reqs, race=True,
                           env={"GORACE": "log_path=%s exitcode=0 halt_on_error=0" % racelog})
     absorb(ctx, hres)
@@ -63,6 +63,8 @@ def run(ctx):
     for r in hres:
         ev = r.get("events", [])
         if not ev:
+            if not r["ok"]:
+                continue       # the history aborted the process (already reported as a violation)
             raise vlib.MachineryError("history driver recorded no events")
         tv = ctx.validate_trace("DeterminismTrace", "DeterminismTrace.cfg", ev + ([{"event": "Race", "doc": "-", "op": "-", "g": 0}] if races else []))
         if tv["accepted"]:
